@@ -112,6 +112,16 @@ def group_totals(spec):
     xc = scale * 0.05 * (cwalk + 0.05 * rng.normal(0.0, 1.0, n))
     yc = scale * 0.05 * (0.5 + cratio * cwalk + 0.05 * rng.normal(0.0, 1.0, n))
     yc = yc + np.where(in_test, spend, 0.0)
+  elif kind == 'control_dark':
+    # both groups spend before the test; the control group goes dark from the
+    # first test day on (a variable-cost experiment: non-incremental spend in
+    # the pre-period only)
+    cwalk = np.abs(5.0 + 0.2 * np.cumsum(rng.normal(0.0, 1.0, n))) + 1.0
+    cratio = rng.uniform(0.5, 2.0)
+    xc = scale * 0.05 * (cwalk + 0.05 * rng.normal(0.0, 1.0, n))
+    yc = scale * 0.05 * (0.5 + cratio * cwalk + 0.05 * rng.normal(0.0, 1.0, n))
+    xc = np.where(period == PRE, xc, 0.0)
+    yc = yc + np.where(in_test, spend, 0.0)
   else:
     raise KeyError(kind)
   return dict(period=period, xr=xr, yr=yr, xc=xc, yc=yc)
